@@ -602,7 +602,7 @@ def program(cex: dict) -> str:
     return PRELUDE + "fn main() {\n" + body + "    println!(\"replay-ok\");\n}\n"
 
 
-def replay(doc: dict) -> bool:
+def replay(doc: dict, profiles=("dev", "release")) -> bool:
     """True when the counterexample reproduces against the real code"""
     cex = doc.get("cex") or {}
     src = program(cex)
@@ -626,7 +626,7 @@ def replay(doc: dict) -> bool:
                 doc.setdefault("native", {})["note"] = "the CLI does not build: " + b.stderr[-400:]
                 return False
             env["CLI_BIN"] = str(scratch / "clitarget" / "debug" / "rustls-cert-gen")
-        for prof in ([], ["--release"]):
+        for prof in [p for p in ([], ["--release"]) if ("release" if p else "dev") in profiles]:
             p = subprocess.run(["cargo", "run", "--offline", "-q"] + prof, cwd=scratch, env=env, capture_output=True, text=True, timeout=900)
             doc.setdefault("native", {})["release" if prof else "dev"] = {"exit": p.returncode, "stderr_tail": p.stderr[-600:]}
             if p.returncode == 0 and "replay-ok" in p.stdout:
